@@ -596,8 +596,8 @@ def run(ctx):
                              "transform", "fit_transform", "_ensure_iterable"])
     # ---- correspondence: corpus, generated histories, malformed stream
     cases, recs_all, kinds = [], [], []
-    ngen = ctx.n(700, 12000)
-    nbad = ctx.n(80, 1200)
+    ngen = ctx.n(3000, 40000)
+    nbad = ctx.n(300, 4000)
     cov = common.LineCov(["persim/images.py"])
     for i in range(len(CORPUS) + ngen + nbad):
         if i < len(CORPUS):
